@@ -154,22 +154,42 @@ func runC06(c *core.Ctx) {
 	// ------------------------------------------------ registry sizes and types
 	if c.Whole("registry") {
 		lorawan.VerifResetProprietary()
-		for _, up := range []bool{true, false} {
-			for cid := 0; cid < 256; cid++ {
-				pl, size, err := lorawan.GetMACPayloadAndSize(up, lorawan.CID(cid))
-				want := spec.MACLayout(up, byte(cid))
-				c.Eval(1)
-				if want == nil {
-					if err == nil {
-						c.Violate(fmt.Sprintf("C06|registry|unexpected|up=%v|cid=%#x", up, cid), "(uplink=%v, CID %#x) has a registered payload of %d bytes; the specification defines none", up, cid, size)
+		sweep := func(when string) {
+			for _, up := range []bool{true, false} {
+				for cid := 0; cid < 256; cid++ {
+					pl, size, err := lorawan.GetMACPayloadAndSize(up, lorawan.CID(cid))
+					want := spec.MACLayout(up, byte(cid))
+					c.Eval(1)
+					if want == nil {
+						if err == nil {
+							c.Violate(fmt.Sprintf("C06|registry|unexpected|up=%v|cid=%#x", up, cid), "%s: (uplink=%v, CID %#x) has a registered payload of %d bytes; the specification defines none", when, up, cid, size)
+						}
+					} else if err != nil || size != want.Size || reflect.TypeOf(pl) != reflect.TypeOf(macCtor[up][byte(cid)]()) {
+						c.Violate(fmt.Sprintf("C06|registry|size|up=%v|cid=%#x", up, cid), "%s: (uplink=%v, CID %#x): size %d type %T err %v; specification: %s, %d bytes", when, up, cid, size, pl, err, want.Name, want.Size)
 					}
-				} else if err != nil || size != want.Size || reflect.TypeOf(pl) != reflect.TypeOf(macCtor[up][byte(cid)]()) {
-					c.Violate(fmt.Sprintf("C06|registry|size|up=%v|cid=%#x", up, cid), "(uplink=%v, CID %#x): size %d type %T err %v; specification: %s, %d bytes", up, cid, size, pl, err, want.Name, want.Size)
+					c.Shape("registry", up, cid, when)
 				}
-				c.Shape("registry", up, cid)
 			}
 		}
-		c.Exhaustive("registry: 2 directions x 256 CIDs")
+		sweep("fresh process")
+		// the standard part of the registry is not at the mercy of registration calls that are refused
+		// (a standard CID, a negative size) or that register nothing (size 0)
+		for _, up := range []bool{true, false} {
+			for cid := 0; cid < 256; cid++ {
+				for _, size := range []int{-1, 0, 4} {
+					if cid >= 0x80 && size > 0 {
+						continue
+					}
+					err := lorawan.RegisterProprietaryMACCommand(up, lorawan.CID(cid), size)
+					if err == nil && (size < 0 || cid < 0x80) {
+						c.Violate(fmt.Sprintf("C06|registry|refusable-registration-accepted|cid<0x80=%v|size=%d", cid < 0x80, size), "RegisterProprietaryMACCommand(%v, %#x, %d) succeeded", up, cid, size)
+					}
+				}
+			}
+		}
+		sweep("after refused registrations")
+		lorawan.VerifResetProprietary()
+		c.Exhaustive("registry: 2 directions x 256 CIDs, before and after refused registrations")
 	}
 
 	// ------------------------------------------------ MHDR, FCtrl, DLSettings: all 256 bytes
